@@ -20,6 +20,7 @@ type FuncVal struct {
 	Ref   *FuncRef
 	Info  *types.Info // type info of the package the literal / function lives in
 	TArgs map[string]*Sort
+	Inner *FuncVal // Kind "wrap": a closure / named function passed as a callback, with a call-site trace
 	// partial application produced by β-reduction is not needed: generated code uses literals.
 }
 
@@ -122,7 +123,7 @@ type FuncCtx struct {
 	results   []types.Object
 	usedSpec  map[string]bool
 	overflow  bool
-	nwrite, nchk, npanic, nanon, qn, pureDepth, nLoops int
+	nwrite, nchk, npanic, nanon, qn, pureDepth, nLoops, nwrap int
 	onPanic       func(*St, string)
 	inlStack      []string
 	specErrs      []string
